@@ -296,6 +296,10 @@ def apply_model_op(models, op, rng_seed, caller=None):
         elif kind == 'cmeta':
             v = rng.choice(list(m.variables()))
             m.add_cmeta_id(v)
+            if salt % 3 == 0:
+                # the clash path: the display name of a new variable is already in use as an id
+                m.add_variable('cl$w%d' % salt, 'dimensionless', cmeta_id='cl__v%d' % salt)
+                m.add_cmeta_id(m.add_variable('cl$v%d' % salt, 'dimensionless'))
         elif kind == 'addunit':
             name = rng.choice(['mV', 'ms', 'ua', 'per_ms'])
             m.units.add_unit(name, rng.choice(['volt / 1000', 'second * 0.001', 'ampere * 1e-6', 'metre * 7']))
@@ -413,6 +417,31 @@ def model_work(case):
                             % (res, idx, case['files'][idx], t, case['files'][t], ', '.join(diff),
                                str(snaps[t].get(diff[0]))[:200], str(now[diff[0]])[:200]), {'op_index': j, 'changed': diff}))
                 snaps[t] = now
+    if caller is None and not bad:
+        # independence the other way round: the SAME operations on an identical model, performed now (after all the work on
+        # the other models), give the same model again -- nothing process-wide (counters, caches) may have moved
+        import re
+        norm = lambda x: re.sub(r'store\d+_', '', json.dumps(x, sort_keys=True, default=str))      # noqa: E731
+        for t in range(len(models)):
+            try:
+                twin = [None] * len(models)
+                twin[t] = cellmlmanip.load_model(os.path.join(CELLML, case['files'][t]))
+                for op in case['ops']:
+                    if op[1] % len(models) == t:
+                        apply_model_op(twin, op, case['seed'], None)
+                a, b = snapshot(models[t]), snapshot(twin[t])
+            except Exception as e:
+                bad.append(('replaying the operations of model %d on a fresh copy raises %r' % (t, e), {'twin': t}))
+                continue
+            # compared: everything that does not print SymPy argument order (which follows SymPy's own process-wide Dummy
+            # numbering) or rdflib's random blank-node names
+            robust = [k for k in a if k not in ('equations', 'eqs_for', 'printed', 'unit_check', 'rdf')]
+            diff = [k for k in robust if norm(a[k]) != norm(b.get(k))]
+            if diff:
+                bad.append(('the operations of model %d (%s), repeated on a fresh identical model after the work on the other '
+                            'models, give a different model: %s (first %s, repeated %s)'
+                            % (t, case['files'][t], ', '.join(diff), norm(a[diff[0]])[:160], norm(b[diff[0]])[:160]),
+                            {'twin': t, 'differs': diff}))
     return bad, hist
 
 
